@@ -287,6 +287,15 @@ create_1d_filter (int              width,
 
 	/* Normalize, with error diffusion */
 	p -= width;
+	if (total == 0)
+	{
+	    /* Every sample rounded to zero (or they cancel), so there is
+	     * nothing to normalize: use the pixel the sampling point is
+	     * in, x == 0.  Note x1 <= 0 < x2 whenever width >= 1.
+	     */
+	    p[-x1] = pixman_fixed_1;
+	    total = pixman_fixed_1;
+	}
         total = 65536.0 / total;
         new_total = 0;
 	e = 0.0;
